@@ -554,6 +554,10 @@ var c19Templates = func() []c19Tpl {
 			"SELECT ag(c1, $b) FROM t; SELECT ag(c1) OVER (ORDER BY c1) FROM t; SELECT ag(DISTINCT c3, 1, 2) FROM t; SELECT ag() FROM t;", fresh: true},
 		{id: "prepared", sql: "PREPARE s FROM 'SELECT ?, :a, ?'; EXECUTE s USING $a, $b AS a, 3; EXECUTE s USING $a; EXECUTE s; PREPARE s FROM 'SELECT 1'; DISPOSE PREPARE s; EXECUTE s;", fresh: true},
 		{id: "prepared-nested", sql: "PREPARE pa FROM 'SELECT ?, :n'; PREPARE pb FROM 'EXECUTE pa USING ?, :m AS n'; EXECUTE pb USING $a, $b AS m; PREPARE pc FROM 'EXECUTE pb USING ? + 1, ? AS m'; EXECUTE pc USING $a, $b; EXECUTE pa USING $a, $b AS n;", fresh: true},
+		// user code that never stops calling itself (no argument placeholders: one case each)
+		{id: "recursion-function", sql: "DECLARE rf FUNCTION (@n) AS BEGIN RETURN rf(@n + 1); END; SELECT rf(1);", fresh: true},
+		{id: "recursion-execute", sql: "VAR @s := 'EXECUTE @s;'; EXECUTE @s;", fresh: true},
+		{id: "recursion-aggregate", sql: "DECLARE ra AGGREGATE (c) AS BEGIN RETURN (SELECT ra(c1) FROM t); END; SELECT ra(c1) FROM t;", fresh: true},
 		{id: "prepared-bad", sql: "PREPARE s FROM 'SELECT ? FROM';", fresh: true},
 		{id: "prepared-literal", sql: "PREPARE s FROM #a; EXECUTE s USING $a;", fresh: true},
 		{id: "control-flow", sql: "VAR @i := 0; WHILE @i < 3 DO @i := @i + 1; IF @i = $a THEN BREAK; ELSEIF $b THEN CONTINUE; END IF; END WHILE; CASE $a WHEN $b THEN PRINT 1; ELSE PRINT 2; END CASE;", fresh: true},
